@@ -87,7 +87,7 @@ def failedTps (all : List TP) : ProdRes → List TP
 def isAcks0Shape : ProdRes → Bool
   | .none => true
   | .responses [] => true
-  | .failed [] _ => true
+  | .failed [] (_ :: _) => true
   | .err _ => true
   | _ => false
 
@@ -110,7 +110,7 @@ structure Track where
   retryTids : List Tid := []        -- timers set while a produce result was being handled
   produced : List Sid := []         -- sends that have been in a produce request
   acct : Bool := true               -- every result so far accounted for its request
-  acct0 : Bool := true              -- … in the sense of a request without acknowledgements (acks = 0)
+  acct0 : Bool := true              -- every result so far had the shape of an answer to a request without acks
   stopped : Bool := false
   timersSinceReset : Nat := 0
   lastP : List (TP × List Sid) := []   -- last payload seen per topic/partition
@@ -184,7 +184,7 @@ def trackEv (pre : Snap) (t : Track) (e : Ev) : Track :=
   match (if effective t e then completionOf e else none), t0.cur, t0.curRes with
   | some r, some (_, ps), none =>
     { t0 with curRes := some r, acct := t0.acct && accounts ps r,
-              acct0 := t0.acct0 && (accounts ps r || isAcks0Shape r),
+              acct0 := t0.acct0 && isAcks0Shape r,
               acked := ((respsOf r).filter (·.error = 0)).map (·.tp) ++ t0.acked }
   | _, _, _ => t0
 
